@@ -5,6 +5,7 @@ G2  defined before use: register operands are looked up in the set-bitmap and th
     SSA operands are compared with the running wire index
 G3  eval (and Evaluator::run) compare party count and per-party bit counts before indexing the inputs
 G4  sibling consistency: every comparison of a circuit field against the same bound uses the same comparator
+G8  an upper bound written as n.saturating_sub(1) is used only after n == 0 was rejected (index 0 of an empty vector)
 G7  in the register evaluator register-valued fields index only the register file and Input.party / Input.input only the inputs
 G6  eval's storage is allocated with exactly the size validation bounds indices by (max_reg_count; inputs + gates)
 G5  no index position (or slice bound) into circuit-sized storage in eval is computed from the supplied inputs
@@ -690,5 +691,55 @@ def rule_g4(ctx):
     return res
 
 
+def rule_g8(ctx):
+    """`max = n.saturating_sub(1); if x > max { reject }` is the bound `x < n` only for n > 0: for n = 0 the largest allowed index
+    saturates to 0 and index 0 passes although nothing can be indexed.  Such a bound needs a rejecting `n == 0` test before it."""
+    res = RuleResult("G8", "an upper bound written as n.saturating_sub(1) is used only after n == 0 was rejected")
+    n = 0
+    for va in ("register_circuit::Circuit::validate", "circuit::Circuit::validate"):
+        body = ctx.body(va)
+        for b, t in body.calls():
+            if mir.last_seg(mir.callee(t) or "") != "saturating_sub" or len(t["args"]) != 2 or t["args"][1].get("val") != 1 or body.blocks[b]["cleanup"]:
+                continue
+            n += 1
+            nsrc = {(r, tuple(p)) for (r, p) in body.trace_operand(t["args"][0])}
+            # rejecting `n == 0` tests
+            guards = []
+            for gb, blk in enumerate(body.blocks):
+                for st in blk["stmts"]:
+                    if st["k"] == "assign" and st["rv"]["k"] == "binop" and st["rv"]["op"] in ("Eq", "Ne", "Lt", "Le", "Gt", "Ge"):
+                        for side, other in (("l", "r"), ("r", "l")):
+                            if st["rv"][other]["k"] == "const" and st["rv"][other].get("val") in (0, 1) and st["rv"][side]["k"] in ("copy", "move") and \
+                                    {(r, tuple(p)) for (r, p) in body.trace_operand(st["rv"][side])} == nsrc:
+                                d = st["place"]["l"]
+                                for x in range(body.n):
+                                    tt = body.term(x)
+                                    if tt and tt["k"] == "switch" and tt["discr"]["k"] in ("copy", "move") and tt["discr"]["place"]["l"] == d and any(leads_to_err(body, s_) for s_ in body.succs(x)):
+                                        guards.append(gb)
+            # uses of the saturated bound in comparisons
+            uses = []
+            for ub, blk in enumerate(body.blocks):
+                if blk["cleanup"]:
+                    continue
+                for st in blk["stmts"]:
+                    if st["k"] == "assign" and st["rv"]["k"] == "binop" and st["rv"]["op"] in CMP_OPS:
+                        if any(r[:2] == ("call", b) for side in ("l", "r") for (r, p) in body.deep_sources(st["rv"][side], 4, through={})):
+                            uses.append((ub, st["sp"]))
+                ut = blk["term"]
+                if ut and ut["k"] == "call" and (ut["func"].get("declared") or "") in CMP_CALLS:
+                    if any(r[:2] == ("call", b) for a in ut["args"] for (r, p) in body.deep_sources(a, 4, through={})):
+                        uses.append((ub, ut["sp"]))
+            for ub, sp in uses:
+                if any(body.dominates(g, ub) for g in guards):
+                    res.ok({"function": va, "bound": "line %d" % t["sp"][1], "use": "line %d" % sp[1], "verdict": "the empty case is rejected before the saturated bound is used"})
+                else:
+                    res.bad(Finding("G8", va, "saturated bound used without rejecting the empty case",
+                                    "the bound is n.saturating_sub(1) and nothing rejects n == 0 first: for n = 0 the index 0 passes validation (`Input { party: p, input: 0 }` for a party "
+                                    "without bits), and eval indexes an empty vector", sp))
+    if not n:
+        res.ok({"verdict": "no bound is written as n.saturating_sub(1)"})
+    return res
+
+
 def run(ctx):
-    return ctx.run_rules([rule_g1, rule_g2, rule_g3, rule_g4, rule_g5, rule_g6, rule_g7])
+    return ctx.run_rules([rule_g1, rule_g2, rule_g3, rule_g4, rule_g5, rule_g6, rule_g7, rule_g8])
